@@ -110,6 +110,9 @@ func runCheck() int {
 		}
 	}
 	workDir := filepath.Join(*flagVerif, "work", prop)
+	if sfx := os.Getenv("GOCV_WORKDIR_SUFFIX"); sfx != "" {
+		workDir += "." + sfx // parallel runs of one property (must-fail corpus) must not share query files
+	}
 	os.RemoveAll(workDir)
 	os.MkdirAll(workDir, 0o755)
 
